@@ -274,11 +274,19 @@ func runStr(sw *shardWriter, j *jb, input []byte, dstSlack int, st *genStats) {
 	var es []strEntry
 	fresh := func() []byte { return append(make([]byte, 0, len(input)), input...) }
 	// 1..3 ReadString with nil / dirty / tiny scratch; later overwrite of input and scratch
-	for k, mk := range []func() *[]byte{
+	// (7..9: a pointer to a nil slice - the idiomatic `var scratch []byte` -, an empty non-nil one, an empty roomy one)
+	for ki, mk := range []func() *[]byte{
 		func() *[]byte { return nil },
 		func() *[]byte { b := append(make([]byte, 0, 16), "garbage"...); return &b },
 		func() *[]byte { b := make([]byte, 1, 1); b[0] = 'Z'; return &b },
+		func() *[]byte { var b []byte; return &b },
+		func() *[]byte { b := make([]byte, 0); return &b },
+		func() *[]byte { b := make([]byte, 0, 64); return &b },
 	} {
+		k := ki
+		if ki >= 3 {
+			k = ki + 3
+		}
 		guardPanic(&panics, func() {
 			data := fresh()
 			sc := mk()
@@ -322,6 +330,20 @@ func runStr(sw *shardWriter, j *jb, input []byte, dstSlack int, st *genStats) {
 		t := bytes.TrimLeft(orig, " \t\r\n")
 		if len(t) == 0 || t[0] != 'n' { // Decode on null is C12's business
 			es = append(es, strEntry{k: 6, ok: err == nil, p: p, val: seen, pst: []byte(target)})
+		}
+	})
+	// 10 DecodeString through a pointer to a nil scratch slice
+	guardPanic(&panics, func() {
+		data := fresh()
+		var target string
+		var sc []byte
+		p, err := rjson.DecodeString(data, &target, &sc)
+		seen := []byte(target)
+		scribble(data)
+		scribble(sc[:cap(sc)])
+		t := bytes.TrimLeft(orig, " \t\r\n")
+		if len(t) == 0 || t[0] != 'n' {
+			es = append(es, strEntry{k: 10, ok: err == nil, p: p, val: seen, pst: []byte(target)})
 		}
 	})
 	j.reset()
@@ -525,6 +547,12 @@ func genStrings(c *genCtx, sw *shardWriter, j *jb) {
 			}
 		}
 	}
+	// string runs: runs of every length followed by every kind of element (block boundaries of copiers and scanners)
+	stringRunInputs(c.thorough(), 17, func(t []byte, k int) {
+		if k > 40 || len(t)%3 == 0 || c.thorough() {
+			emit(t)
+		}
+	})
 	// random strings
 	n := 4000
 	if c.thorough() {
@@ -1107,6 +1135,33 @@ func genSan(c *genCtx, sw *shardWriter, j *jb) {
 	pres := [][]byte{{}, []byte("ab"), {0xff}}
 	emit := func(b []byte) {
 		runSan(sw, j, b, pres[c.rng.Intn(len(pres))], []int{0, 1, 3, 4, 16}[c.rng.Intn(5)], c.st)
+	}
+	// long inputs: a valid multi-byte rune (or a truncated one) straddling every offset around the powers of two, with an
+	// invalid byte nowhere / at the start / at the end / right before the rune (converters working in blocks or windows)
+	for _, p := range []int{8, 16, 32, 64, 128, 256, 512, 1024, 2048, 4096} {
+		if p > 1024 && !c.thorough() {
+			continue
+		}
+		for d := 0; d <= 4; d++ {
+			for _, r := range []string{"é", "€", "😀", "\xe2\x82", "\xf0\x9f\x98", "\xff"} {
+				for bad := 0; bad < 4; bad++ {
+					b := bytes.Repeat([]byte("a"), p-d)
+					switch bad {
+					case 1:
+						b[0] = 0xff
+					case 3:
+						if len(b) > 0 {
+							b[len(b)-1] = 0x80
+						}
+					}
+					b = append(append(b, r...), "tail"...)
+					if bad == 2 {
+						b = append(b, 0xc3)
+					}
+					emit(b)
+				}
+			}
+		}
 	}
 	emit([]byte{})
 	for a := 0; a < 256; a++ {
